@@ -117,7 +117,14 @@ pub fn exec_history(fams: &[Family], cache: &mut CleanCache, h: &History) -> Res
             }
             HOp::Build(plan) => {
                 let before = if fresh_success { Some(mtimes(&s)) } else { None };
-                let r = build(&s, h.component, plan.clone(), false, None);
+                let debug = std::env::var("VERIF_DEBUG").is_ok();
+                let r = build(&s, h.component, plan.clone(), debug, None);
+                if debug {
+                    eprintln!("--- op {i}: build -> {} ({} mutations)", r.outcome.tag(), r.mutations);
+                    for l in &r.log_lines {
+                        eprintln!("    {l}");
+                    }
+                }
                 info.builds += 1;
                 info.steps += (r.mutations + r.reads) as u64;
                 info.faults.extend(r.faults_fired.iter().copied());
